@@ -110,9 +110,10 @@ func runC31(c *Ctx) error {
 		var toks, outs []string
 		// spec: highest registered version per (type, major)
 		type ent struct {
-			v   util.Version
+			vs  string
 			val int
 		}
+		preOfLast := "?"
 		reg := map[string]ent{}
 		nsteps := 3 + c.Intn(12)
 		lastAdd := [4]int{-1, 0, 0, 0}
@@ -129,25 +130,33 @@ func runC31(c *Ctx) error {
 				lastAdd = [4]int{ti, M, m, p}
 			}
 			t := types[ti]
-			v := util.MustNewVersion(fmt.Sprintf("v%d.%d.%d", M, m, p))
+			pres := []string{"", "", "", "-1", "-2", "-10", "-ab", "-ba", "-alpha", "-alpha.1", "-1.b"}
+			pre := pres[(M*7+m*3+p+int(c.U64()%3))%len(pres)]
+			if lastAdd[0] >= 0 && ti == lastAdd[0] && preOfLast != "?" {
+				pre = preOfLast
+			}
+			vs := fmt.Sprintf("%d.%d.%d%s", M, m, p, pre)
+			v := util.MustNewVersion("v" + vs)
 			ht := hint.NewHint(hint.Type(t), v)
+			preOfLast = "?"
 			switch {
 			case r < 4:
+				preOfLast = pre
 				val := 100*hi%1000 + k + 1
 				err := st.Add(ht, val)
-				toks = append(toks, fmt.Sprintf("a:%s:%d.%d.%d:%d", t, M, m, p, val))
+				toks = append(toks, fmt.Sprintf("a:%s:%s:%d", t, vs, val))
 				if err != nil {
 					outs = append(outs, "dup")
 				} else {
 					outs = append(outs, "ok")
 					key := fmt.Sprintf("%s/%d", t, M)
-					if e, ok := reg[key]; !ok || v.Compare(e.v) > 0 {
-						reg[key] = ent{v, val}
+					if e, ok := reg[key]; !ok || c31semverLess(e.vs, vs) {
+						reg[key] = ent{vs, val}
 					}
 				}
-			case r < 8:
+			case r < 7:
 				got, found := st.Find(ht)
-				toks = append(toks, fmt.Sprintf("f:%s:%d.%d.%d", t, M, m, p))
+				toks = append(toks, fmt.Sprintf("f:%s:%s", t, vs))
 				res := "none"
 				if found {
 					res = fmt.Sprint(got)
@@ -160,6 +169,35 @@ func runC31(c *Ctx) error {
 				if res != want {
 					c.Violation("C31:find-not-highest-registered", fmt.Sprintf("history %s: Find(%s) = %s, highest registered compatible entry = %s", strings.Join(toks, " "), ht, res, want),
 						map[string]interface{}{"history": toks})
+				}
+			case r < 8: // lookups by raw strings: hint strings, type strings (cache keys must not collide)
+				raw := []string{ht.String(), t, "tb", "zz"}[c.Intn(4)]
+				if c.Bool() {
+					_, got, found, err := st.FindByString(raw)
+					toks = append(toks, "fs:"+raw)
+					switch {
+					case err != nil:
+						outs = append(outs, "err")
+					case !found:
+						outs = append(outs, "none")
+					default:
+						outs = append(outs, fmt.Sprint(got))
+					}
+				} else {
+					h2, got, found, err := st.FindBytTypeString(raw)
+					toks = append(toks, "ts:"+raw)
+					switch {
+					case err != nil:
+						outs = append(outs, "err")
+					case !found:
+						outs = append(outs, "none")
+					default:
+						outs = append(outs, fmt.Sprintf("%s=%d", h2.Version(), got))
+					}
+				}
+				if c.Chance(1, 2) { // immediately look the same string up the other way
+					lastAdd = [4]int{ti, M, m, p}
+					preOfLast = pre
 				}
 			default:
 				h2, got, found := st.FindBytType(hint.Type(t))
@@ -180,4 +218,62 @@ func runC31(c *Ctx) error {
 		}
 	}
 	return nil
+}
+
+// semver precedence, computed independently of util.Version.Compare (numbers, then prerelease rules)
+func c31semverLess(a, b string) bool {
+	split := func(s string) ([3]int, []string) {
+		core, pre := s, ""
+		if i := strings.Index(s, "-"); i >= 0 {
+			core, pre = s[:i], s[i+1:]
+		}
+		var n [3]int
+		fmt.Sscanf(core, "%d.%d.%d", &n[0], &n[1], &n[2])
+		if pre == "" {
+			return n, nil
+		}
+		return n, strings.Split(pre, ".")
+	}
+	na, pa := split(a)
+	nb, pb := split(b)
+	for i := 0; i < 3; i++ {
+		if na[i] != nb[i] {
+			return na[i] < nb[i]
+		}
+	}
+	switch {
+	case len(pa) == 0:
+		return false
+	case len(pb) == 0:
+		return true
+	}
+	isNum := func(s string) bool {
+		for _, ch := range s {
+			if ch < '0' || ch > '9' {
+				return false
+			}
+		}
+		return len(s) > 0
+	}
+	for i := 0; i < len(pa) && i < len(pb); i++ {
+		x, y := pa[i], pb[i]
+		if x == y {
+			continue
+		}
+		nx, ny := isNum(x), isNum(y)
+		switch {
+		case nx && !ny:
+			return true
+		case !nx && ny:
+			return false
+		case nx && ny:
+			if len(x) != len(y) {
+				return len(x) < len(y)
+			}
+			return x < y
+		default:
+			return x < y
+		}
+	}
+	return len(pa) < len(pb)
 }
